@@ -297,7 +297,11 @@ func (e *c19env) settle() {
 
 func (e *c19env) sendOn(c int, name string, x float64, host int) error {
 	if c == 0 {
-		monitor.RecordSingleMeasureWithHost(name, x, host)
+		if host == monitor.InvalidHostIndex {
+			monitor.RecordSingleMeasure(name, x)
+		} else {
+			monitor.RecordSingleMeasureWithHost(name, x, host)
+		}
 		return nil
 	}
 	return e.encs[c].Encode(c19wire{name, x, host})
@@ -486,7 +490,13 @@ func c19run(res *c19result, mu *sync.Mutex) {
 				}
 				parsed = append(parsed, pr)
 			}
-			err = e.mon.VerifInsertBucket(idx, rules, s)
+			if wellFormed {
+				// the call simul.RunTest makes (it drops the error; a bucket that was not set shows at the next get)
+				e.mon.InsertBucket(idx, rules, s)
+				err = nil
+			} else {
+				err = e.mon.VerifInsertBucket(idx, rules, s)
+			}
 			if err == nil {
 				e.bk[idx] = &c19bucket{name: tk[3], rules: parsed}
 				emit("ok")
@@ -660,8 +670,10 @@ func c19run(res *c19result, mu *sync.Mutex) {
 			host, err := strconv.Atoi(tk[3])
 			var deltas [][4]uint64
 			ok := err == nil && e.mon != nil && e.nconn > 0
+			var resets []bool
 			for _, rec := range strings.Split(tk[4], ";") {
-				p := strings.Split(rec, ".")
+				resets = append(resets, strings.HasPrefix(rec, "R"))
+				p := strings.Split(strings.TrimPrefix(rec, "R"), ".")
 				var d [4]uint64
 				if len(p) != 4 {
 					ok = false
@@ -685,8 +697,12 @@ func c19run(res *c19result, mu *sync.Mutex) {
 			} else {
 				cm = monitor.NewCounterIOMeasureWithHost(name, cnt, host)
 			}
-			for _, d := range deltas {
+			for di, d := range deltas {
 				cnt.rx, cnt.tx, cnt.mrx, cnt.mtx = cnt.rx+d[0], cnt.tx+d[1], cnt.mrx+d[2], cnt.mtx+d[3]
+				if resets[di] {
+					cm.Reset() // what the counter moved by so far is not reported
+					continue
+				}
 				cm.Record()
 				for j, sf := range []string{"_rx", "_tx", "_msg_rx", "_msg_tx"} {
 					e.recordMon(name+sf, float64(d[j]), host)
@@ -850,7 +866,11 @@ func c19run(res *c19result, mu *sync.Mutex) {
 				}
 				ns := len(e.static[sname])
 				if len(fields) != ns+5*len(keys) {
-					fail("values-shape", fmt.Sprintf("values line of %q has %d fields, expected %d static + 5 x %d measures: %q", sname, len(fields), ns, len(keys), line))
+					kind := "values-shape"
+					if _, isB := e.bucketOf(sname); isB {
+						kind = "bucket-stats-mismatch" // a bucket that lacks (or has too many) measures
+					}
+					fail(kind, fmt.Sprintf("values line of %q has %d fields, expected %d static + 5 x %d measures: %q", sname, len(fields), ns, len(keys), line))
 					emit("shape:" + line)
 					continue
 				}
@@ -1080,6 +1100,8 @@ func c19join(l []string, sep string) string {
 type c19gen struct {
 	c  *h.Ctx
 	cs *h.Case
+	// the value of kind 8 (all values of a case equal)
+	constant float64
 }
 
 func (g *c19gen) op(format string, a ...interface{}) {
@@ -1092,6 +1114,8 @@ var c19extra = []string{"servers", "rounds", "zeta", "alpha", "Beta", "depth"}
 func (g *c19gen) value(kind int) float64 {
 	r := g.c.Rng
 	switch kind {
+	case 8: // the same value every time
+		return g.constant
 	case 0: // small integers, repeated values likely
 		return float64(r.Intn(21) - 10)
 	case 1: // dyadic fractions: ties of the six-decimal rounding
@@ -1123,6 +1147,10 @@ func (g *c19gen) kind() int {
 	r := g.c.Rng
 	if r.Intn(40) == 0 {
 		return 7
+	}
+	if r.Intn(14) == 0 {
+		g.constant = g.value(r.Intn(4))
+		return 8
 	}
 	return r.Intn(7)
 }
@@ -1335,6 +1363,46 @@ func c19genAll(c *h.Ctx, yield func(*h.Case)) {
 	}
 	yield(g.cs)
 
+	start("corpus-bucket-after-first-measure") // seeded change C19r4-A: host -> buckets remembered at a host's first measure
+	g.op("stats g hosts=8,bf=2 -")
+	g.op("stats b1 hosts=8,bf=2 -")
+	g.op("stats b2 hosts=8,bf=2 -")
+	g.op("stats b3 hosts=8,bf=2 -")
+	g.op("mon g")
+	g.op("bucket 2 b2 %s", c19hexRules([]string{"0:2"}))
+	g.op("mupd m %s 3", bitsOf(100)) // host 3 reports before any bucket names it
+	g.op("mupd m %s 1", bitsOf(50))
+	g.op("bucket 1 b1 %s", c19hexRules([]string{"2:5"}))
+	for _, v := range []float64{2, 4, 9} {
+		g.op("mupd m %s 3", bitsOf(v))
+	}
+	g.op("get 1")
+	g.op("values b1")
+	g.op("acc b1 m")
+	g.op("bucket 2 b3 %s", c19hexRules([]string{"3:4"})) // bucket 2 set again: other rules, another result set
+	g.op("mupd m %s 1", bitsOf(7))
+	g.op("mupd m %s 3", bitsOf(8))
+	for _, sn := range []string{"b1", "b2", "b3", "g"} {
+		g.op("values %s", sn)
+		g.op("acc %s m", sn)
+	}
+	yield(g.cs)
+	start("corpus-equal-consecutive-measures") // seeded change C19r4-B: a record equal to the previous one on its connection dropped
+	g.op("stats g hosts=2,bf=2 -")
+	g.op("mon g")
+	g.op("open 2")
+	for _, v := range []float64{7, 7, 3} {
+		g.op("send 0 m %s 1", bitsOf(v))
+	}
+	for _, v := range []float64{7, 3, 7} {
+		g.op("send 1 n %s 1", bitsOf(v))
+	}
+	g.op("burst k 0 %s;%s", strings.Join([]string{bitsOf(5), bitsOf(5), bitsOf(5)}, ","), strings.Join([]string{bitsOf(5), bitsOf(5)}, ","))
+	g.op("close")
+	g.op("values g")
+	g.accAll("g", []string{"m", "n", "k"})
+	yield(g.cs)
+
 	// ---- read-out sequences on one result set -------------------------------------------------
 	for i := 0; i < c.Pick(3000, 40000); i++ {
 		start("readouts")
@@ -1377,6 +1445,7 @@ func c19genAll(c *h.Ctx, yield func(*h.Case)) {
 			nb = 1
 		}
 		var bnames []string
+		var late [][2]string // buckets inserted (or set again) while measures are already arriving
 		for b := 0; b < nb; b++ {
 			bn := fmt.Sprintf("b%d", b)
 			g.newStats(bn)
@@ -1384,8 +1453,22 @@ func c19genAll(c *h.Ctx, yield func(*h.Case)) {
 			if r.Intn(6) == 0 {
 				idx = r.Intn(3) - 1 // colliding / negative bucket indices
 			}
-			g.op("bucket %d %s %s", idx, bn, c19hexRules(g.rules(malformed && r.Intn(2) == 0)))
+			line := fmt.Sprintf("bucket %d %s %s", idx, bn, c19hexRules(g.rules(malformed && r.Intn(2) == 0)))
+			if r.Intn(3) == 0 {
+				late = append(late, [2]string{bn, line})
+				c.Count("bucket=late")
+			} else {
+				g.op("%s", line)
+			}
 			bnames = append(bnames, bn)
+		}
+		if nb > 0 && r.Intn(5) == 0 {
+			// an index that is set a second time later on: other rules, another result set
+			bn := fmt.Sprintf("b%d", nb)
+			g.newStats(bn)
+			late = append(late, [2]string{bn, fmt.Sprintf("bucket %d %s %s", r.Intn(nb), bn, c19hexRules(g.rules(false)))})
+			bnames = append(bnames, bn)
+			c.Count("bucket=set-again")
 		}
 		nn := 1 + r.Intn(3)
 		names := []string{}
@@ -1402,6 +1485,10 @@ func c19genAll(c *h.Ctx, yield func(*h.Case)) {
 		}
 		cnt := 1 + r.Intn(c.Pick(14, 40))
 		for j := 0; j < cnt; j++ {
+			if len(late) > 0 && r.Intn(cnt-j) < len(late) {
+				g.op("%s", late[0][1])
+				late = late[1:]
+			}
 			name := names[r.Intn(nn)]
 			switch {
 			case loop && r.Intn(4) == 0:
@@ -1435,6 +1522,9 @@ func c19genAll(c *h.Ctx, yield func(*h.Case)) {
 				}
 				g.accAll(sn, names)
 			}
+		}
+		for _, lb := range late {
+			g.op("%s", lb[1])
 		}
 		if loop {
 			if r.Intn(10) == 0 {
@@ -1649,6 +1739,9 @@ func c19genAll(c *h.Ctx, yield func(*h.Case)) {
 			case 3:
 				var recs []string
 				for q := 0; q < 1+r.Intn(3); q++ {
+					if r.Intn(4) == 0 {
+						recs = append(recs, fmt.Sprintf("R%d.%d.%d.%d", r.Intn(5000), r.Intn(5000), r.Intn(20), r.Intn(20)))
+					}
 					recs = append(recs, fmt.Sprintf("%d.%d.%d.%d", r.Intn(5000), r.Intn(5000), r.Intn(20), r.Intn(20)))
 				}
 				g.op("cmeasure %s %d %s", base, g.host(), strings.Join(recs, ";"))
@@ -1674,6 +1767,45 @@ func c19genAll(c *h.Ctx, yield func(*h.Case)) {
 		for _, sn := range append([]string{"g"}, bnames...) {
 			g.op("header %s", sn)
 			g.op("values %s", sn)
+			g.accAll(sn, names)
+		}
+		yield(g.cs)
+	}
+
+	// ---- the read-out of the simulation driver (simul/build.go:146-175) -----------------------------
+	// RunTests logs the global result set, then writes header (first run configuration only) and
+	// values of the global result set and of every bucket
+	for i := 0; i < c.Pick(150, 1500); i++ {
+		start("build-readout")
+		g.newStats("g")
+		g.op("mon g")
+		nb := r.Intn(4)
+		sets := []string{"g"}
+		for b := 0; b < nb; b++ {
+			bn := fmt.Sprintf("b%d", b)
+			g.newStats(bn)
+			g.op("bucket %d %s %s", b, bn, c19hexRules(g.rules(false)))
+			sets = append(sets, bn)
+		}
+		nn := 1 + r.Intn(3)
+		names := []string{}
+		for _, j := range r.Perm(len(c19names))[:nn] {
+			names = append(names, c19names[j])
+		}
+		k := g.kind()
+		c.Count(fmt.Sprintf("valuekind=%d", k))
+		for j := 0; j < 1+r.Intn(20); j++ {
+			g.op("mupd %s %s %d", names[r.Intn(nn)], bitsOf(g.value(k)), g.host())
+		}
+		first := r.Intn(3) != 0
+		g.op("string g")
+		for _, sn := range sets {
+			if first {
+				g.op("header %s", sn)
+			}
+			g.op("values %s", sn)
+		}
+		for _, sn := range sets {
 			g.accAll(sn, names)
 		}
 		yield(g.cs)
